@@ -324,3 +324,38 @@ CHECKS["C18"] = dict(
         level_note="Trusts the model's reading of 'bank default' semantics and the internal reads used where no public getter exists.",
     ),
 )
+
+CHECKS["C14"] = dict(
+    harnesses={"pbt": dict(src="c14_isolation.cpp", cfg="asan", kind="rc"),
+               "tsan": dict(src="c14_isolation.cpp", cfg="tsan", kind="rc", replay_args=["--threads", "1"])},
+    quick=[
+        dict(name="interleave", harness="pbt", workers=8, args=["--n", "400"]),
+        dict(name="threads", harness="pbt", workers=2, args=["--mode", "threads", "--n", "100"]),
+        dict(name="heapfill", harness="pbt", workers=4, args=["--mode", "heapfill", "--n", "120"]),
+        dict(name="tsan", harness="tsan", workers=2, args=["--mode", "threads", "--n", "50"]),
+    ],
+    thorough=[
+        dict(name="interleave", harness="pbt", workers=16, args=["--n", "3000"], timeout=10800),
+        dict(name="threads", harness="pbt", workers=2, args=["--mode", "threads", "--n", "1000"], timeout=10800),
+        dict(name="heapfill", harness="pbt", workers=8, args=["--mode", "heapfill", "--n", "500"], timeout=10800),
+        dict(name="tsan", harness="tsan", workers=2, args=["--mode", "threads", "--n", "400"], timeout=10800),
+    ],
+    rule="interleave: rapidcheck generates 2-3 call histories (open with rate/emulator/chips, notes, controllers, programs with LFO-sensitive instruments, audio calls, emulator/chip-count/"
+         "chip-type/LFO/PCM-rate changes, reset, bank reload, SysEx, song load+play; interferers may open/close repeatedly, every emulator id in both roles) and an interleaving; the observed "
+         "instance's PCM and tapped register stream must be bit-identical when run alone, alone again, and interleaved. threads: 2-8 histories on concurrently started threads, each compared "
+         "with its solo run; the same under ThreadSanitizer must produce no report. heapfill: one history rendered in three child processes whose allocator fills fresh memory with 0x00, "
+         "0x5A, 0xFF must give identical hashes. Non-trivial = non-silent audio and (interleave) an interferer was created/reset/switched between two audio calls of the observed instance; "
+         "distinct by FNV-64 of the case.",
+    assumptions=[
+        "thread schedules are not controlled: concurrency coverage relies on running the racing code simultaneously many times and on TSan's happens-before detection",
+        "the VGM dumper is excluded from the observed role (it writes a fixed file name shared by all instances)",
+        "rendered frames per instance are capped by a weighted budget (Nuked is 25x slower than NP2)",
+    ],
+    min_nontrivial={"quick": 100, "thorough": 1500},
+    manifest=dict(
+        technique="metamorphic property testing (solo vs repeated vs interleaved vs concurrent execution must be bit-identical) with rapidcheck-generated histories and interleavings, TSan for data races, cross-process heap-fill relation for uninitialised reads",
+        level_text="Bit-exact comparison of PCM and register streams across solo, repeated, interleaved and multi-threaded executions of generated histories over all emulator pairs; "
+                   "ThreadSanitizer on the threaded rounds; allocator-fill metamorphic relation across processes.",
+        level_note="Thread interleavings are sampled, not enumerated; TSan sees only races on code executed concurrently by the generated histories.",
+    ),
+)
